@@ -62,6 +62,8 @@ void _ZNSt11logic_errorC1EPKc(uint8_t* t, uint8_t* s) {}
 void _ZNSt11logic_errorC2EPKc(uint8_t* t, uint8_t* s) {}
 void _ZNSt11logic_errorD1Ev(uint8_t* t) {}
 void _ZNSt11logic_errorD2Ev(uint8_t* t) {}
+void _ZNSt12out_of_rangeC1EPKc(uint8_t* t, uint8_t* s) {}
+void _ZNSt12out_of_rangeC1ERKNSt7__cxx1112basic_stringIcSt11char_traitsIcESaIcEEE(uint8_t* t, uint8_t* s) {}
 void _ZNSt12out_of_rangeD1Ev(uint8_t* t) {}
 void _ZNSt12length_errorD1Ev(uint8_t* t) {}
 void _ZNSt16invalid_argumentD1Ev(uint8_t* t) {}
@@ -102,6 +104,7 @@ static uint8_t* verif_alloc(uint64_t n) {
   MODEL_ASSUME(p != 0); return p; }
 uint8_t* _Znwm(uint64_t n) { return verif_alloc(n); }
 uint8_t* _Znam(uint64_t n) { return _Znwm(n); }
+uint8_t* _ZnwmRKSt9nothrow_t(uint64_t n, uint8_t* nt) { return verif_alloc(n); }   /* operator new(size_t, std::nothrow): allocation failure out of scope, as for _Znwm */
 /* deallocation is a no-op: memory is never reused (CBMC allocations are fresh objects anyway); use-after-free detection is outside every claim */
 void _ZdlPv(uint8_t* p) { }
 void _ZdlPvm(uint8_t* p, uint64_t n) { }
@@ -127,6 +130,11 @@ uint8_t* __cxa_begin_catch(uint8_t* o) { verif_exc_pending = 0; return o; }
 void __cxa_end_catch(void) {}
 void __cxa_rethrow(void) { verif_exc_pending = 1; }
 uint32_t __cxa_atexit(uint8_t* f, uint8_t* a, uint8_t* d) { return 0; }
+void __cxa_pure_virtual(void) {
+#ifdef __CPROVER__
+  __CPROVER_assert(0, "pure virtual function called");
+#endif
+  abort(); }
 
 
 /* libstdc++ red-black tree helpers: see tool/models/stl_models.cpp (linked as IR so node types match) */
@@ -139,6 +147,7 @@ uint8_t* ll_realloc(uint8_t* p, uint64_t n) { return realloc(p, n); }
 uint32_t ll_memcmp(uint8_t* a, uint8_t* b, uint64_t n) { return (uint32_t)memcmp(a, b, n); }
 uint32_t ll_bcmp(uint8_t* a, uint8_t* b, uint64_t n) { return (uint32_t)memcmp(a, b, n); }
 uint64_t ll_strlen(uint8_t* a) { return strlen((char*)a); }
+uint32_t ll_strcmp(uint8_t* a, uint8_t* b) { return (uint32_t)strcmp((char*)a, (char*)b); }
 void ll___assert_fail(uint8_t* a, uint8_t* f, uint32_t l, uint8_t* fn) {
 #ifdef __CPROVER__
   __CPROVER_assert(0, "assert() in code under test failed");
@@ -151,7 +160,16 @@ void ll___assert_fail(uint8_t* a, uint8_t* f, uint32_t l, uint8_t* fn) {
 
 uint8_t* ll_memcpy(uint8_t* d, uint8_t* s, uint64_t n) { for (uint64_t i = 0; i < n; i++) d[i] = s[i]; return d; }
 uint8_t* ll_memmove(uint8_t* d, uint8_t* s, uint64_t n) {
-  if ((uintptr_t)d <= (uintptr_t)s) { for (uint64_t i = 0; i < n; i++) d[i] = s[i]; }
+#ifdef __CPROVER__
+  int fwd = __CPROVER_same_object(d, s) ? (__CPROVER_POINTER_OFFSET(d) <= __CPROVER_POINTER_OFFSET(s)) : 1;
+#else
+  int fwd = (uintptr_t)d <= (uintptr_t)s;
+#endif
+  if (fwd) { for (uint64_t i = 0; i < n; i++) d[i] = s[i]; }
   else { for (uint64_t i = n; i > 0; i--) d[i-1] = s[i-1]; }
   return d; }
 uint8_t* ll_memset(uint8_t* d, uint32_t c, uint64_t n) { for (uint64_t i = 0; i < n; i++) d[i] = (uint8_t)c; return d; }
+/* function-local static initialisation guards (single-threaded model) */
+uint32_t __cxa_guard_acquire(uint8_t* g) { return g[0] == 0; }
+void __cxa_guard_release(uint8_t* g) { g[0] = 1; }
+void __cxa_guard_abort(uint8_t* g) { }
